@@ -172,6 +172,31 @@ pub fn run(args: &[String]) -> i32 {
         }
         check("reference password-mode writer and scrypt == pinned release on 3 seeded files", ok);
     }
+    if what == "all" || what == "tty" {
+        // the controlling-terminal seam: passwords typed at the prompt give exactly what --env-pass gives
+        use crate::cli::{run as crun, Invocation, Sandbox, Status};
+        let sb = Sandbox::new("selftest-tty");
+        sb.write("p.txt", b"typed passwords");
+        let pw = "p\u{e4}ss w\u{f6}rd ~!  ";
+        let mut a = Invocation::new(&["password", "encrypt", "p.txt", "-o", "a.ktl", "--env-pass"]).env("KESTREL_PASSWORD", pw);
+        a.entropy_seed = Some(77);
+        let mut b = a.clone();
+        b.args[4] = b"b.ktl".to_vec();
+        b.pass_via_tty = true;
+        let (fa, fb) = (crun(&sb, &a), crun(&sb, &b));
+        let same = fa.status == Status::Exit(0) && fb.status == Status::Exit(0) && sb.read("a.ktl").is_some() && sb.read("a.ktl") == sb.read("b.ktl");
+        let mut d = Invocation::new(&["password", "decrypt", "b.ktl", "-o", "b.out", "--env-pass"]).env("KESTREL_PASSWORD", pw);
+        d.pass_via_tty = true;
+        let fd = crun(&sb, &d);
+        let back = fd.status == Status::Exit(0) && sb.read("b.out").as_deref() == Some(&b"typed passwords"[..]);
+        let mut w = Invocation::new(&["password", "decrypt", "b.ktl", "-o", "w.out", "--env-pass"]).env("KESTREL_PASSWORD", "p\u{e4}ss w\u{f6}rd ~!");
+        w.pass_via_tty = true;
+        let fw = crun(&sb, &w);
+        let wrong = fw.status == Status::Exit(1) && sb.read("w.out").is_none();
+        // without a terminal and without --env-pass the tool must fail at once (it never blocks)
+        let n = crun(&sb, &Invocation::new(&["password", "decrypt", "b.ktl", "-o", "n.out"]));
+        check("controlling-terminal seam: typed password == --env-pass (byte-identical file, round trip, wrong password refused)", same && back && wrong && n.status == Status::Exit(1));
+    }
     if what == "all" {
         // one-off searches that the checks would otherwise repeat (kept under build/cache)
         #[cfg(feature = "keyring")]
